@@ -38,7 +38,8 @@ def run_one(name, segments, workers):
         env = dict(os.environ, VERIF_REPO_SRC=os.path.join(d, "src"))
         env.pop("VERIF_CHILD", None)
         r = subprocess.run([sys.executable, os.path.join(HERE, "run_check.py"), m["prop"], "--segments", str(segments or SEGMENTS[m["prop"]]),
-                            "--workers", str(workers), "--no-evidence", "--seed", str(1000 + sorted(MUTANTS).index(name))]  # distinct seed per mutant: replay file names must not collide between parallel runs, env=env, capture_output=True, text=True, cwd=HERE)
+                            "--workers", str(workers), "--no-evidence", "--seed", str(1000 + sorted(MUTANTS).index(name))],  # distinct seed per mutant: replay file names must not collide between parallel runs
+                           env=env, capture_output=True, text=True, cwd=HERE)
         viol = re.findall(r"^VIOLATION property=(\S+) replay=(\S+)", r.stdout, re.M)
         first = re.search(r"^  oracle=.*$", r.stdout, re.M)
         if m["expect"] == "violation":
